@@ -73,6 +73,35 @@ def run_shard(ctx, prop):
                 passes_changed[name] = passes_changed.get(name, 0) + 1
             ctx.record(jdump([case["parts"], "en", None]), ["systematic", "ctx:" + cname] + (["nontrivial"] if res["changed"] else []), bool(res["changed"]))
     ctx.exhaustive.append("each of the %d lexemes alone and inside a table cell / list item / indented line / div" % len(S.ALL))
+    # systematic: every chain of container tags (each the only child of the one before, text at the bottom, all closed),
+    # i.e. every way to put a table / row / cell / list / item directly into another one
+    import itertools
+
+    fams = [["table", "tr", "td", "caption"], ["ul", "li", "dl", "dd"]] if not ctx.thorough else [["table", "tr", "td", "caption", "th", "ul", "li"], ["ul", "li", "dl", "dd", "dt", "table", "tr"]]
+    maxlen = 5 if ctx.thorough else 4
+    i = 0
+    nchains = 0
+    seen_chains = set()
+    for fam in fams:
+        for k in range(1, maxlen + 1):
+            for chain in itertools.product(fam, repeat=k):
+                if chain in seen_chains:
+                    continue
+                seen_chains.add(chain)
+                # at the bottom: plain text, or loose text followed by proper children (so that the container survives cleaning)
+                for leaf in ("x", "loose <td>a</td><td>b</td>" if "table" in fam[:1] else "loose <li>i</li><li>j</li>"):
+                    i += 1
+                    nchains += 1
+                    if i % ctx.nshards != ctx.shard:
+                        continue
+                    text = "".join("<%s>" % t for t in chain) + leaf + "".join("</%s>" % t for t in reversed(chain)) + "\n\nafter"
+                    case = dict(parts=[text], lang="en", db=None, classes=["chain"], depth=0, kind="systematic")
+                    ctx.announce(slim(case))
+                    res = judge(ctx, case, prop)
+                    for name in res["changed"]:
+                        passes_changed[name] = passes_changed.get(name, 0) + 1
+                    ctx.record(jdump([case["parts"], "en", None]), ["systematic", "container-chain"] + (["nontrivial"] if res["changed"] else []), bool(res["changed"]))
+    ctx.exhaustive.append("all %d container-tag chains of length <= %d over %r (text, or loose text + proper children, at the bottom)" % (nchains, maxlen, fams))
     for name, n in passes_changed.items():
         ctx.labels["changed-by:" + name] = n
 
